@@ -36,7 +36,7 @@ impl Check for C20 {
             return ExtraResult::default();
         }
         // coverage-guided search over the same scenario space with the same oracle (harness/fuzz, target pair_oracles)
-        crate::props::pairfuzz::pair_fuzz_extra("C20", seed, 250_000, &|sc| self.run(sc), &|sc| serde_json::to_value(sc).unwrap_or_default())
+        crate::props::pairfuzz::pair_fuzz_extra("C20", seed, 40_000, &|sc| self.run(sc), &|sc| serde_json::to_value(sc).unwrap_or_default())
     }
 
     fn cases(&self, tier: Tier) -> u64 {
